@@ -30,7 +30,12 @@ Definition op_cli_gen_dir (args : list sx) : sx :=
 Definition op_cli_chain (args : list sx) : sx := SL [sym "ok"].
 
 Definition op_escape (args : list sx) : sx :=
-  match args with [SB p] => SB (escape_path p) | _ => bad_args end.
+  (* URL.EscapedPath returns a Path that is exactly "*" unescaped (net/url's special case for "OPTIONS *");
+     every other path, also one that merely contains '*', is escaped as the model says *)
+  match args with
+  | [SB p] => if bytes_eqb p [42] then SB [42] else SB (escape_path p)
+  | _ => bad_args
+  end.
 
 (* cli_gen_har ver primary|() ((url method status ((name value)...) text b64)...) :
    gen-bundle -har, then bundle.Read and dump-bundle on the artifact.  Either the tool refuses
